@@ -68,9 +68,13 @@ def check(run, prog):
     r1(ck, prog, run)
     r2(ck, prog, run)
     # graph keys: a hand-written Dask token must cover everything a lazy read depends on (shared with C11)
-    from .c11 import statelessness_structure, single_read_per_request
+    from .c11 import statelessness_structure, single_read_per_request, delayed_names_rule
     statelessness_structure(ck, prog, run, only_token=True, rule="R4")
     single_read_per_request(ck, prog, "R4")
+    delayed_names_rule(ck, prog, "R4")
+    # results must not depend on when a deferred callable runs, nor on earlier calls (shared mutable defaults)
+    from .. import structural
+    structural.report(ck, prog, "R4", [f for f in prog.all_functions if f.module in SCOPE and f.kind not in ("nested", "lambda")], "pulsarbat (laziness scope)")
     run.extra["decided_by"] = ck.how
 
 
